@@ -795,7 +795,7 @@ func addTopo(c *hx.Ctx, cw *hx.CaseWriter, tr *cpTree) {
 // ---- the component -----------------------------------------------------------------------------
 
 func runCPUPick(c *hx.Ctx) {
-	cw := c.NewCaseWriter("From NV Require Import corr.CpuPick_corr.", "CpuPick_corr.case", "CpuPick_corr.check_case", 400)
+	cw := c.NewCaseWriter("From NV Require Import corr.CpuPick_corr.", "CpuPick_corr.case", "CpuPick_corr.check_case", 300)
 	tr := &cpTree{root: filepath.Join(c.Out, "sysfs")}
 	defer os.RemoveAll(tr.root)
 
@@ -865,16 +865,25 @@ func runCPUPick(c *hx.Ctx) {
 			for layout := 0; layout < 3; layout++ {
 				for _, cpn := range []int{1, 2} {
 					m := mkMachine(nodes, cpn, smt, layout, []int{0, 1, 2, 3}, true)
+					if c.Tier != "thorough" && m.ncpu > 16 {
+						continue // the quick tier leaves the two largest shapes to the random machines
+					}
 					all := make([]int, m.ncpu)
 					for i := range all {
 						all[i] = i
 					}
+					h1 := uint64(nodes+1)<<32 | 1
 					for _, cands := range [][]int{all, all[1:]} {
 						nodeOf, coreOf, zc := m.topoFor(cands)
-						for _, r := range []int{1, cpn * smt, cpn*smt + 1} {
-							for _, h := range []uint64{0, uint64(nodes+1)<<32 | 1} {
-								addArrange(cw, "arrange-sweep", cands, nodeOf, coreOf, zc, r, h)
-							}
+						for _, rh := range []struct {
+							r int
+							h uint64
+						}{{1, 0}, {cpn * smt, h1}, {cpn * smt, 0}, {cpn*smt + 1, h1}} {
+							addArrange(cw, "arrange-sweep", cands, nodeOf, coreOf, zc, rh.r, rh.h)
+						}
+						if c.Tier == "thorough" {
+							addArrange(cw, "arrange-sweep", cands, nodeOf, coreOf, zc, 1, h1)
+							addArrange(cw, "arrange-sweep", cands, nodeOf, coreOf, zc, cpn*smt+1, 0)
 						}
 					}
 				}
